@@ -1,6 +1,7 @@
 //! Replay crate: runs the REAL compiled code of /repo on concrete inputs.
 //! `rx demo <Dxx>` exits 1 (and prints the failing input) when the defect manifests, 0 when the code behaves as the property demands.
 //! It is not a verifier; it exists so a VIOLATION / finding can carry a failing input replayed against the real code.
+mod bounded;
 use ommx::v1::{self, decision_variable::Kind, Constraint, DecisionVariable, Equality, Function, Instance, Linear};
 use std::collections::HashMap;
 
@@ -130,6 +131,17 @@ fn main() {
     if a.len() >= 3 && a[1] == "demo" {
         std::process::exit(demo(&a[2]));
     }
-    println!("usage: rx demo <D1|D2|D3|D7|D13|D13u|D5a|D5c|D5d|D6>");
+    if a.len() >= 3 && a[1] == "bounded" {
+        match bounded::run(&a[2]) {
+            None => { println!("BOUNDED-NONE property={}", a[2]); std::process::exit(4); }
+            Some(o) => {
+                println!("BOUNDED property={} cases={} distinct={} {}", a[2], o.cases, o.distinct, if o.fail.is_some() { "FAIL" } else { "pass" });
+                for sm in bounded::samples() { println!("SAMPLE {}", sm); }
+                if let Some(f) = o.fail { println!("FAILING-INPUT {}", f); std::process::exit(1); }
+                std::process::exit(0);
+            }
+        }
+    }
+    println!("usage: rx bounded <Cxx> | rx demo <D1|D2|D3|D7|D13|D13u|D5a|D5c|D5d|D6>");
     std::process::exit(2);
 }
